@@ -154,6 +154,8 @@ class AminoAcidSeqRecord(SeqRecord):
 
         for it in re.finditer(rule, str(self.seq)):
             s = it.end()
+            if s >= len(self.seq):
+                continue
             if s not in exception_sites:
                 yield it.end()
 
@@ -187,6 +189,9 @@ class AminoAcidSeqRecord(SeqRecord):
 
         sites = [x.end() for x in site_pattern.finditer(seq)]
         ranges = [(x.start(), x.end()) for x in range_pattern.finditer(seq, overlapped=True)]
+        if sites and sites[-1] >= len(seq) and len(sites) == len(ranges):
+            sites.pop()
+            ranges.pop()
 
         if len(sites) != len(ranges):
             raise ValueError(
